@@ -204,8 +204,8 @@ pub fn rand_valid(r: &mut Rng, post_connack: bool) -> SPacket {
     }
 }
 
-const MUTATORS: [&str; 15] = [
-    "varint-overlong", "type-edit", "flag-edit", "qos3", "length-plus", "length-minus", "truncate", "trailing-garbage", "utf8-corrupt", "oversize", "bit-flip", "splice", "prop-length-edit", "prop-surplus", "prop-surplus",
+const MUTATORS: [&str; 17] = [
+    "varint-overlong", "type-edit", "flag-edit", "qos3", "length-plus", "length-minus", "truncate", "trailing-garbage", "utf8-corrupt", "oversize", "bit-flip", "splice", "prop-length-edit", "prop-surplus", "prop-surplus", "prop-id-overlong", "prop-id-overlong",
 ];
 
 /// Index of the property-length byte of a server packet whose lengths are all single-byte varints.
@@ -319,6 +319,26 @@ pub fn mutate(r: &mut Rng, bytes: &[u8], op: &str) -> Vec<u8> {
                 out.extend_from_slice(&b[hdr..]);
                 out.extend(std::iter::repeat_n(0x61u8, extra));
                 return out;
+            }
+            b
+        }
+        "prop-id-overlong" => {
+            // lengths stay consistent, but the identifier of the first property is written as an
+            // overlong (two-byte) or oversized (five-byte) variable-length integer
+            if let Some(i) = prop_block(&b) {
+                let pl = b[i] as usize;
+                if pl > 0 {
+                    let id = b[i + 1];
+                    let enc: &[u8] = if r.chance(1, 2) { &[0x00] } else { &[0x80, 0x80, 0x80, 0x70] };
+                    if pl + enc.len() < 0x80 && b[1] as usize + enc.len() < 0x80 && id < 0x80 {
+                        b[i + 1] = id | 0x80;
+                        for (k, t) in enc.iter().enumerate() {
+                            b.insert(i + 2 + k, *t);
+                        }
+                        b[i] += enc.len() as u8;
+                        b[1] += enc.len() as u8;
+                    }
+                }
             }
             b
         }
